@@ -88,36 +88,28 @@ func (c *Ctx) c19ParseApply(fn *types.Func) *c19Apply {
 		}
 	}
 	if a.rcName == "" {
+		// the rules arrive as a parameter of their own type (*validate.StringRules …): the arm is named by the type
+		for _, f := range decl.Type.Params.List {
+			t := info.TypeOf(f.Type)
+			pt, ok := t.(*types.Pointer)
+			if !ok {
+				continue
+			}
+			nm, ok := pt.Elem().(*types.Named)
+			if !ok || nm.Obj().Pkg() == nil || !strings.HasSuffix(nm.Obj().Pkg().Path(), "/validate") {
+				continue
+			}
+			tn := nm.Obj().Name()
+			if tn == "FieldRules" || !strings.HasSuffix(tn, "Rules") || len(f.Names) != 1 {
+				continue
+			}
+			a.rcName = f.Names[0].Name
+			a.arm = "Get" + strings.TrimSuffix(tn, "Rules")
+		}
+	}
+	if a.rcName == "" {
 		return a
 	}
-	ruleOfCond := func(e ast.Expr) string {
-		e = ast.Unparen(e)
-		// len(rc.GetIn()) > 0
-		if be, ok := e.(*ast.BinaryExpr); ok {
-			if call, ok := be.X.(*ast.CallExpr); ok {
-				if id, ok := call.Fun.(*ast.Ident); ok && id.Name == "len" && len(call.Args) == 1 {
-					e = call.Args[0]
-				}
-			}
-		}
-		call, ok := e.(*ast.CallExpr)
-		if !ok {
-			return ""
-		}
-		sel, ok := call.Fun.(*ast.SelectorExpr)
-		if !ok || types.ExprString(sel.X) != a.rcName {
-			return ""
-		}
-		n := sel.Sel.Name
-		switch {
-		case strings.HasPrefix(n, "Has"):
-			return strings.TrimPrefix(n, "Has")
-		case strings.HasPrefix(n, "Get"):
-			return strings.TrimPrefix(n, "Get")
-		}
-		return ""
-	}
-	fmtArgs := map[ast.Expr]bool{}
 	// locals of the function that hold the value of a rule getter (v := rc.GetK()), by object
 	getterLocals := map[types.Object]string{}
 	ast.Inspect(decl.Body, func(n ast.Node) bool {
@@ -138,6 +130,41 @@ func (c *Ctx) c19ParseApply(fn *types.Func) *c19Apply {
 		}
 		return true
 	})
+	ruleOfCond := func(e ast.Expr) string {
+		e = ast.Unparen(e)
+		// len(rc.GetIn()) > 0
+		if be, ok := e.(*ast.BinaryExpr); ok {
+			if call, ok := be.X.(*ast.CallExpr); ok {
+				if id, ok := call.Fun.(*ast.Ident); ok && id.Name == "len" && len(call.Args) == 1 {
+					e = call.Args[0]
+				}
+			}
+		}
+		if id, ok := ast.Unparen(e).(*ast.Ident); ok {
+			// a local that holds the value of the rule's getter (in := rc.GetIn(); len(in) != 0)
+			if g, ok := getterLocals[info.ObjectOf(id)]; ok {
+				return g
+			}
+			return ""
+		}
+		call, ok := e.(*ast.CallExpr)
+		if !ok {
+			return ""
+		}
+		sel, ok := call.Fun.(*ast.SelectorExpr)
+		if !ok || types.ExprString(sel.X) != a.rcName {
+			return ""
+		}
+		n := sel.Sel.Name
+		switch {
+		case strings.HasPrefix(n, "Has"):
+			return strings.TrimPrefix(n, "Has")
+		case strings.HasPrefix(n, "Get"):
+			return strings.TrimPrefix(n, "Get")
+		}
+		return ""
+	}
+	fmtArgs := map[ast.Expr]bool{}
 	condIsPresence := func(e ast.Expr) bool {
 		pres := false
 		ast.Inspect(e, func(n ast.Node) bool {
@@ -980,6 +1007,13 @@ func keywordSources(c *Ctx, rid string, weaker ...map[string][]string) {
 						guarded = true
 					}
 				}
+				// a value read from the rule's own getter and tested for emptiness (in := rc.GetIn(); if len(in) != 0)
+				// is guarded by that rule
+				for _, g := range guards {
+					if strings.HasPrefix(g, "local:") && okRule(strings.TrimPrefix(g, "local:")) {
+						guarded = true
+					}
+				}
 				var foreign []string
 				for _, sname := range srcs {
 					if !okRule(sname) {
@@ -997,11 +1031,26 @@ func keywordSources(c *Ctx, rid string, weaker ...map[string][]string) {
 				}
 			}
 		}
+		localGuards := func(e ast.Expr) []string {
+			var out []string
+			ast.Inspect(e, func(nd ast.Node) bool {
+				if id, ok := nd.(*ast.Ident); ok {
+					if o := finfo.ObjectOf(id); o != nil {
+						for _, rn := range localRules[o] {
+							out = append(out, "local:"+rn)
+						}
+					}
+				}
+				return true
+			})
+			return out
+		}
 		visit = func(stmts []ast.Stmt, guards []string) {
 			for _, st := range stmts {
 				switch x := st.(type) {
 				case *ast.IfStmt:
 					g := append(append([]string{}, guards...), rulesIn(x.Cond)...)
+					g = append(g, localGuards(x.Cond)...)
 					if x.Init != nil {
 						visit([]ast.Stmt{x.Init}, guards)
 					}
